@@ -88,6 +88,24 @@ def check(model: Model, run: Run) -> None:
                                  f"{fi.name} converts a received tag field with `{norm(c)[:60]}`; {short(q)} has no member for {missing}, so an element carrying that "
                                  "(valid, merely unrecognised) identifier makes the whole message undecodable instead of being skipped", model.loc(ASN1, c)))
     run.coverage["enum_conversions_in_header_routines"] = n_conv      # none at all is fine: then nothing can be rejected there
+    # implicit rejections: no construct of the header routine can fail on some number of length octets (a fixed-width
+    # struct.unpack, an index past the octets present, a byte store) - the catalogued implicit raisers there are all discharged
+    fam_q = {f.qualname for f in an.header_family}
+    for f in an.header_family:
+        mr.escapes(f.qualname, None)
+    hsites = [s_ for s_ in mr.implicit_sites if s_["function"] in fam_q]
+    for s_ in hsites:
+        if s_["verdict"] == "deferred" or (s_["kind"] == "enum-conversion"):
+            continue
+        ok = s_["verdict"] == "safe"
+        run.ob("V1-no-implicit-rejection-in-header-routine", ok, {"function": s_["function"].split(".")[-1], "construct": s_["construct"][:60], "why": s_["reason"][:80]})
+        if not ok:
+            run.fail(Finding("V1-no-implicit-rejection-in-header-routine", s_["function"], f"{s_['kind']}|{s_['construct'][:80]}",
+                             f"{s_['exception']} possible at `{s_['construct'][:80]}` while a header is decoded ({s_['reason'][:100]}): some valid length form is refused",
+                             f"{model.relpath(ASN1)}:{s_['line']}"))
+    run.floor("implicit raiser sites in the header routines", len(hsites), 4)
+    from ..readerrules import lemma_no_silent_clamp
+    lemma_no_silent_clamp(model, run, mr)
     # every read_* reaches the single header routine through the validating helper (discovered, not named)
     for name, h in an.reader_helper.items():
         run.ob("V1-single-header-routine", True, {"method": name, "helper": h.name, "validator": an.validate.name, "header_routine": hdr.name})
